@@ -66,4 +66,14 @@ theorem tmcmc_rN (prev : Rat) : rN tmcmcConsts prev = max (19 / 20 * prev) 50 :=
   have : tmcmcConsts = consts := tmcmcConsts_eq
   rw [this]; rfl
 
+/-- the statement for the executed stage loop with the source's constants -/
+theorem tmcmc_run_statement (InS : List Rat → Prop) (priorF likF : List Rat → EV)
+    (envs : List StageEnv) (β prev : Rat) (ps : List Particle) (tr : List (Rat × List Particle)) (fin : Bool)
+    (hβ : β ≤ 1) (hpop : PopOK InS priorF likF β ps) (hmv : ∀ e ∈ envs, MovesOK InS priorF likF e.moves)
+    (h : runLoop tmcmcConsts envs β prev ps = .ok tr fin) :
+    List.IsChain StepOK (β :: tr.map (·.1)) ∧
+    (∀ e ∈ tr, e.2.length = ps.length ∧ ∀ p ∈ e.2, InS p.x) ∧
+    (fin = true → (tr.map (·.1)).getLast? = some 1) :=
+  run_statement InS priorF likF tmcmcConsts (le_of_lt tmcmc_tol_pos) envs β prev ps tr fin hβ hpop hmv h
+
 end Pun.Gen
